@@ -40,6 +40,9 @@ func Content(t *tape.Tape, tag string, allowLarge bool) []byte {
 		size = 0
 	case kind == 7 && allowLarge:
 		size = 33000 + t.Draw("clarge", 70000)
+	case kind == 6 && allowLarge:
+		// exactly at, just below and just above the buffer sizes copy loops use
+		size = []int{4096, 8192, 32768, 65536}[t.Draw("cboundary", 4)] + t.Draw("cdelta", 3) - 1
 	default:
 		size = 1 + t.Draw("csize", 200)
 	}
